@@ -82,7 +82,7 @@ T_R3 = "CFG dominance / guard-or-forward analysis over MIR in dev and release co
 
 PROPS = {
     "C01": {
-        "clauses": [fam("Add", "Sub"), signed("Add", "Sub"), both(r3.check_underflow_asserts), r3.check_checked_sub, r3.check_add2_carry_used, r3.check_underflow_check_sees_all_digits, r3.check_panic_site_table, r4.check_block_loops, r4.check_block_loop_callers, r5check.check_arithmetic({"Add", "Sub"}, 30), count_ok("biguint/addition.rs", "biguint/subtraction.rs", "bigint/addition.rs", "bigint/subtraction.rs", floor=70), r1.check_biguint_normal_form],
+        "clauses": [fam("Add", "Sub"), signed("Add", "Sub"), both(r3.check_underflow_asserts), r3.check_checked_sub, r3.check_add2_carry_used, r3.check_underflow_check_sees_all_digits, r3.check_panic_site_table, r4.check_block_loops, r4.check_block_loop_callers, r5check.check_arithmetic({"Add", "Sub"}, 30), count_ok("biguint/addition.rs", "biguint/subtraction.rs", "bigint/addition.rs", "bigint/subtraction.rs", floor=70), r1.check_biguint_normal_form, r5check.check_division_methods],
         "not_decided": "the digit arithmetic itself: adc/sbb of the scalar tail, how far a carry or borrow ripples into the longer operand, result growth (a seeded lost "
         "ripple inside `&a - b` is not detected)",
         "level_text": "Decides structural necessary conditions for every input: the two x86_64 block loops are well-formed carry chains (template data flow, addressing, "
@@ -95,7 +95,7 @@ PROPS = {
         "inline-asm template data-flow analysis; abstract interpretation over the sign domain with polynomial result terms",
     },
     "C02": {
-        "clauses": [fam("Mul"), signed("Mul"), both(r3.check_underflow_asserts), r3.check_add2_carry_used, r8.check_cost_general, r8.check_shorter_first, r5check.check_arithmetic({"Mul"}, 15), count_ok("biguint/multiplication.rs", "bigint/multiplication.rs", floor=40), r1.check_biguint_normal_form],
+        "clauses": [fam("Mul"), signed("Mul"), both(r3.check_underflow_asserts), r3.check_add2_carry_used, r8.check_cost_general, r8.check_shorter_first, r5check.check_arithmetic({"Mul"}, 15), count_ok("biguint/multiplication.rs", "bigint/multiplication.rs", floor=40), r1.check_biguint_normal_form, r5check.check_division_methods],
         "not_decided": "temporary sizing, the Karatsuba/Toom-3 algebra (evaluation points, interpolation), mac_with_carry arithmetic, the low-zero stripping arithmetic (all "
         "value-level)",
         "level_text": "Decides: all Mul operator forms forward (operands in either order only because * is commutative) or are reviewed implementations with the sign table "
@@ -183,7 +183,7 @@ PROPS = {
         "technique": "interprocedural field read-set analysis over MIR (necessity rule)",
     },
     "C10": {
-        "clauses": [_c10_forwarders, _c10_signed, _c10_folds, _no_narrowing, r3.check_panic_site_table, both(r3.check_underflow_asserts), r3.check_add2_carry_used, r5check.check_arithmetic(None, 85), r5check.check_powers, r5check.check_upow],
+        "clauses": [_c10_forwarders, _c10_signed, _c10_folds, _no_narrowing, r3.check_panic_site_table, both(r3.check_underflow_asserts), r3.check_add2_carry_used, r5check.check_arithmetic(None, 85), r5check.check_powers, r5check.check_upow, r3.check_operand_overflow, r5check.check_shifts, r5check.check_bitops, r5check.check_division_methods, r5check.check_roots, r5check.check_modular],
         "not_decided": "digit splitting/padding inside the unsigned scalar leaves and the digit arithmetic of the leaf implementations",
         "level_text": "Every one of the ~1286 operator impl bodies is classified from its MIR: ~970 are proven pure forwarders (operands reach the callee in order - swapped "
         "only for commutative operators -, scalar promotions are value-preserving casts, the callee's result is the result, the forwarding graph is acyclic and "
@@ -204,7 +204,7 @@ PROPS = {
         "technique": T_R3 + "; cross-configuration MIR diff with forward taint (cfg-taint)",
     },
     "C12": {
-        "clauses": [fam("Pow"), _no_narrowing, r5check.check_powers, r5check.check_upow, count_ok("biguint/power.rs", "bigint/power.rs", floor=30), r1.check_biguint_normal_form],
+        "clauses": [fam("Pow"), _no_narrowing, r5check.check_powers, r5check.check_upow, count_ok("biguint/power.rs", "bigint/power.rs", floor=30), r1.check_biguint_normal_form, r3.check_operand_overflow],
         "not_decided": "the square-and-multiply arithmetic itself",
         "level_text": "Decides: all Pow operator forms (by value / by reference, every exponent type) are verified forwarders or reviewed implementations that do not narrow "
         "the exponent; BigInt::pow gives the result the sign (-1)^e for negative bases in all 29 forms and canonical zero; the BigUint^BigUint form decides 0^0 "
@@ -235,8 +235,7 @@ PROPS = {
             r3.check_parity_dispatch,
             r3.check_inventory,
             r3.check_panic_site_table,
-            r9.check_iterator_write_sets,
-        ],
+            r9.check_iterator_write_sets, r3.check_operand_overflow],
         "not_decided": "unreachability of internal/debug assertions, primitive arithmetic overflow in debug builds, index bounds, termination, faults other than division by zero",
         "level_text": "Decides the guard discipline for every input in both profiles: every documented failure (zero divisor, underflow, negative shift, radix range, zero "
         "modulus, negative exponent, zeroth/imaginary root, empty range, zero bound) has a release-mode guard testing the right operand before the work; "
@@ -255,7 +254,7 @@ PROPS = {
         "technique": "inline-asm template data-flow analysis (reaching definitions over the instruction list) + MIR def-use/dominance at the call sites; closed-world unsafe inventory",
     },
     "C16": {
-        "clauses": [r6.check_matrix, r6.check_feature_stability, r6.check_cfg_taint, r3.check_inventory, guards(), both(r3.check_underflow_asserts), both(r3.check_radix), both(r3.check_div_guards)],
+        "clauses": [r6.check_matrix, r6.check_feature_stability, r6.check_cfg_taint, r3.check_inventory, guards(), both(r3.check_underflow_asserts), both(r3.check_radix), both(r3.check_div_guards), r3.check_operand_overflow],
         "not_decided": "equality of results where it rests on arithmetic (Newton fixpoint independent of the guess; float helper agreement; absence of overflow so that "
         "overflow-check and wrapping builds agree); the 32-bit-digit configuration (not compiled on this target)",
         "level_text": "Decides: all ten documented feature configurations type-check; enabling serde/rand/quickcheck/arbitrary changes the canonical MIR of no function that "
